@@ -158,7 +158,29 @@ func (w *World) CheckConfigMerge(o *Obs) []Violation {
 		return nil
 	}
 	if ActiveFault(p) != "" {
-		return nil // precedence is judged on fault-free configurations only
+		// precedence is judged on fault-free configurations only - a source that cannot be loaded
+		// fails the start. Should the start go on all the same, the sources that ARE intact must
+		// all be there (judged when the failing ones were added, not set: leaving them aside then
+		// changes nothing for the others)
+		if o.OK() && o.Get != nil {
+			q := *p
+			q.Sources = nil
+			adding := true
+			for _, s := range p.Sources {
+				if failingFault(s.Fault) {
+					adding = adding && !s.Late && (s.Via == "AddConfigLoader" || s.Via == "AddLoaders")
+					continue
+				}
+				q.Sources = append(q.Sources, s)
+			}
+			if adding && len(q.Sources) != 0 && ActiveFault(&q) == "" {
+				for _, x := range NewWorld(&q, MergeSources(&q)).checkMergeStage(o.Get, AllMerges(&q), " (a source failed to load - "+ActiveFault(p)+" - and the start went on)") {
+					x.Oracle = "intact-sources-dropped-after-a-failing-one"
+					vs = append(vs, x)
+				}
+			}
+		}
+		return vs
 	}
 	if !o.OK() {
 		// failures for other reasons (validation, required values, expressions over absent keys)
